@@ -300,19 +300,24 @@ EncFrom(p, i, j) == IF j = 0 THEN 0
                     ELSE IF HasSuite(p[j]) /\ p[j].d = p[i].d - 1 THEN j
                     ELSE EncFrom(p, i, j - 1)
 
+\* (TLC keeps [i \in S |-> e] lazy and re-evaluates e on every application: SubSeq makes
+\*  the per-item tables concrete tuples)
 Mk(p) ==
-  LET fl  == [i \in 1..Len(p) |-> FirstLine(p, i)]
-      tot == fl[Len(p)] + NLines(p[Len(p)]) - 1
+  LET n   == Len(p)
+      fl  == SubSeq([i \in 1..n |-> FirstLine(p, i)], 1, n)
+      tot == fl[n] + NLines(p[n]) - 1
   IN [p   |-> p,
       fl  |-> fl,
-      hl  |-> [i \in 1..Len(p) |-> fl[i] + (IF p[i].dec THEN 1 ELSE 0)],                 \* header line
-      enc |-> [i \in 1..Len(p) |-> IF p[i].d = 0 THEN 0 ELSE EncFrom(p, i, i - 1)],
-      row |-> [i \in 0..Len(p) |-> IF i = 0 THEN 0 ELSE Cardinality({j \in 1..i : IsOpen(p[j])})],
+      hl  |-> SubSeq([i \in 1..n |-> fl[i] + (IF p[i].dec THEN 1 ELSE 0)], 1, n),          \* header line
+      enc |-> SubSeq([i \in 1..n |-> IF p[i].d = 0 THEN 0 ELSE EncFrom(p, i, i - 1)], 1, n),
+      row |-> SubSeq([i \in 1..n |-> Cardinality({j \in 1..i : IsOpen(p[j])})], 1, n),
       \* parso's endmarker sits at the start of the line after the last newline
       T   |-> ToksFrom(p, fl, 1) \o << [it |-> 0, ln |-> tot + 1, s |-> 0, eln |-> tot + 1, e |-> 0,
                                          c |-> "end", inn |-> "none"] >>,
       tab |-> TabFrom(p, fl, 1),
       lams |-> LamsFrom(p, fl, 1)]
+
+RowOf(M, i) == IF i = 0 THEN 0 ELSE M.row[i]
 
 ---------------------------------------------------------------------------
 (* DESIGN (M = Mk(program)) *)
@@ -442,30 +447,30 @@ KnownDeviations == {"async-def-column", "dedented-continuation", "lambda-in-clas
 KnownDeviation(M, pos, got) == Shape(M.tab, M.lams, pos, got) \in KnownDeviations
 
 CtxOKm(M) == \A q \in Positions(M) :
-  (q.on => LET got == M.row[DesignCtxFrom(M, Pos(q), q.k)]
+  (q.on => LET got == RowOf(M, DesignCtxFrom(M, Pos(q), q.k))
            IN IF got \in Allowed(M.tab, Pos(q)) THEN TRUE ELSE KnownDeviation(M, Pos(q), got)) = TRUE
 \* expected to FAIL: without the three known deviations
 CtxStrictm(M) == \A q \in Positions(M) :
-  (q.on => M.row[DesignCtxFrom(M, Pos(q), q.k)] \in Allowed(M.tab, Pos(q))) = TRUE
+  (q.on => RowOf(M, DesignCtxFrom(M, Pos(q), q.k)) \in Allowed(M.tab, Pos(q))) = TRUE
 \* expected to FAIL: the literal reading without HeaderSelf
 CtxLiteralm(M) == \A q \in Positions(M) :
-  (q.on => LET got == M.row[DesignCtxFrom(M, Pos(q), q.k)]
+  (q.on => LET got == RowOf(M, DesignCtxFrom(M, Pos(q), q.k))
            IN IF got = RefCtx(M.tab, Pos(q)) THEN TRUE ELSE KnownDeviation(M, Pos(q), got)) = TRUE
 \* the scan hint is only an optimisation
 HintOKm(M) == \A q \in Positions(M) : DesignCtxFrom(M, Pos(q), q.k) = DesignCtx(M, Pos(q))
 
-RowSeq(M, s) == [k \in 1..Len(s) |-> M.row[s[k]]]
-OwnRow(M, t) == IF t.c \in {"param", "aparam"} THEN M.row[t.it] ELSE 0
+RowSeq(M, s) == [k \in 1..Len(s) |-> RowOf(M, s[k])]
+OwnRow(M, t) == IF t.c \in {"param", "aparam"} THEN RowOf(M, t.it) ELSE 0
 DefTokens(T) == {k \in 1..Len(T) : T[k].c \in {"var", "param", "aparam", "lparam", "cvar"}}
 ParentOKm(M) ==
-  /\ \A i \in Opens(M.p) : RowSeq(M, DesignDefChain(M, i)) = RefChain(M.tab, M.row[i])
+  /\ \A i \in Opens(M.p) : RowSeq(M, DesignDefChain(M, i)) = RefChain(M.tab, RowOf(M, i))
   /\ \A k \in DefTokens(M.T) :
        RowSeq(M, DesignNameChain(M, M.T[k])) = RefNameChain(M.tab, TStart(M.T[k]), OwnRow(M, M.T[k]))
 FullNameOKm(M) ==
   \A i \in Opens(M.p) :
-    FullJudged(M.tab, M.row[i]) =>
-      /\ DesignFull(ModPath, QNName(M, i)) = Some(RefFull(M.tab, ModPath, M.row[i]))
-      /\ DesignFull(ModPath, QNVal(M, i))  = Some(RefFull(M.tab, ModPath, M.row[i]))
+    FullJudged(M.tab, RowOf(M, i)) =>
+      /\ DesignFull(ModPath, QNName(M, i)) = Some(RefFull(M.tab, ModPath, RowOf(M, i)))
+      /\ DesignFull(ModPath, QNVal(M, i))  = Some(RefFull(M.tab, ModPath, RowOf(M, i)))
 \* the layout itself is sane: bodies nest or are disjoint
 LayoutOKm(M) ==
   \A i, j \in 1..Len(M.tab) : i < j =>
@@ -486,9 +491,9 @@ DesignMeetsReference ==
 ---------------------------------------------------------------------------
 (* EMISSION of cases for replay *)
 PosRec(M, q) == [l |-> q.l, c |-> q.c, cls |-> q.cls, on |-> q.on,
-                 des |-> M.row[DesignCtxFrom(M, Pos(q), q.k)], ref |-> RefCtx(M.tab, Pos(q))]
+                 des |-> RowOf(M, DesignCtxFrom(M, Pos(q), q.k)), ref |-> RefCtx(M.tab, Pos(q))]
 DefRec(M, i) ==
-  LET r == M.row[i]
+  LET r == RowOf(M, i)
   IN [row |-> r, it |-> i, dchain |-> RowSeq(M, DesignDefChain(M, i)), rchain |-> RefChain(M.tab, r),
       judged |-> FullJudged(M.tab, r), qual |-> Join(Qual(M.tab, r)),
       rfull |-> RefFull(M.tab, ModPath, r),
